@@ -6,7 +6,10 @@
 EXTENDS Integers, Sequences, FiniteSets, TLC
 
 CONSTANTS Sessions, MaxCh, MaxSteps
-Users == {"alice", "ghost", "empty"}        \* alice has a password, ghost is unknown, empty is configured with ""
+\* alice has a password, ghost is unknown, empty is configured with ""; ALICE and alice_ are NOT configured: they are
+\* alice's name in another letter case / with a blank appended (NTLMv2 hashes the upper-cased name, so a proof made with
+\* alice's password is cryptographically fine for them - but the named user has no configured password)
+Users == {"alice", "ghost", "empty", "ALICE", "alice_"}
 HasPassword(u) == u = "alice"
 Pws == {"right", "wrong"}
 
